@@ -39,7 +39,9 @@ INT32 = (-(2**31), 2**31 - 1)
 
 
 def lit_strategy():
-    ints = st.one_of(st.integers(-10, 10), st.integers(INT32[0] + 1, INT32[1]), st.integers().filter(lambda v: v != -(2**31)), st.sampled_from([2**31 - 1, -(2**31) + 1, 2**31, -(2**31) - 1, 2**63, 10**30]))
+    ints = st.one_of(st.integers(-10, 10), st.integers(INT32[0] + 1, INT32[1]), st.integers().filter(lambda v: v != -(2**31)), st.sampled_from([2**31 - 1, -(2**31) + 1, 2**31, -(2**31) - 1, 2**63, 10**30]),
+                     # just beyond an int, within an unsigned int / just beyond that: a range test written in bits easily admits these
+                     st.sampled_from([2**31, 2**31 + 1, 3000000000, 2**32 - 1, 2**32, 2**32 + 1, -(2**31) - 1, -3000000000, -(2**32) + 1, -(2**32)]))
     floats = st.one_of(
         st.floats(allow_nan=True, allow_infinity=True),
         st.floats(min_value=-1e6, max_value=1e6, allow_nan=False),
